@@ -58,7 +58,7 @@ COMPONENTS_STUB = ["socket (SimSocket)", "selector (SimSelector)", "clocks (worl
 ASSUMPTIONS = [
     "a stream recv never returns fewer bytes than are visible and asked for (DESIGN 2.6); fragmentation = delivery times",
     "asyncio engine: finite timeouts are placed off the 1/64 s delivery grid so that a deadline never coincides with a "
-    "delivery (that coincidence is C10's subject, known defect D5); clause (e) is not evaluated there for timeout 0 "
+    "delivery (that coincidence is C10's subject; it keeps clause (e) free of ties); clause (e) is not evaluated there for timeout 0 "
     "(a cancelled scope cannot poll the kernel) nor for calls during which virtual CPU creep occurred",
     "clause (e) is not evaluated for a pure poll (no wait) during which the fault plan injected a spurious EAGAIN/EINTR",
 ]
@@ -185,8 +185,8 @@ class Hist:
         self.log: list[tuple] = []
         # asyncio + fill path only: number of receive calls issued under an already expired deadline (timeout 0).
         # Such a call is cancelled in the loop iteration in which the transport reads the socket, which is the
-        # trigger of known defect D5 (bytes written into the consumer's buffer are dropped).  Never > 0 when
-        # world.avoid_known (API.md rule 6).
+        # trigger of defect D5 (bytes written into the consumer's buffer were dropped; fixed in /repo e60fd44).
+        # Violations after such a call keep their own structural key so that "revert D5" is recognisable.
         self.zero_deadline_calls = 0
 
     def _fail(self, clause: str, sub: str, msg: str) -> None:
@@ -277,8 +277,7 @@ class Hist:
 
 
 # ============================================================================================== caller history
-def _plan(world: World, hist: Hist, has_iter: bool, draw_T: Callable[[], float], tiny_T: Callable[[], float] | None = None) -> Iterator[tuple]:
-    """tiny_T: when given, timeout-0 calls are replaced by a tiny positive off-grid timeout (avoid_known, see Hist)"""
+def _plan(world: World, hist: Hist, has_iter: bool, draw_T: Callable[[], float]) -> Iterator[tuple]:
     kinds = ["recv-None", "recv-0", "recv-T", "sleep"] + (["iter-0", "iter-T", "iter-None"] if has_iter else [])
 
     def draw_call() -> tuple:
@@ -287,8 +286,6 @@ def _plan(world: World, hist: Hist, has_iter: bool, draw_T: Callable[[], float],
             return ("sleep", world.pick("sleep", (1, 4, 32, 128)) / 64.0, 0)
         op, t = kind.split("-")
         T = None if t == "None" else 0 if t == "0" else draw_T()
-        if T == 0 and tiny_T is not None:
-            T = tiny_T()
         m = 1 + world.choose("iter.n", 4) if op == "iter" else 0
         return (op, T, m)
 
@@ -426,12 +423,9 @@ async def _run_async_history(world: World, sc: Scenario, hist: Hist, obj: Any, b
         with backend.timeout(T):
             return await obj.recv_packet()
 
-    def tiny_T() -> float:
-        timed[0] += 1
-        return 2.0 ** -(8 + min(timed[0], 30))
-
     d5_class = sc.path == "buffered"
-    for op, T, m in _plan(world, hist, has_iter, draw_T, tiny_T if d5_class and world.avoid_known else None):  # type: ignore[attr-defined]
+    # D5 is fixed (known_findings: fixed): timeout 0 is generated on the fill path in every run; the key is kept.
+    for op, T, m in _plan(world, hist, has_iter, draw_T):
         sc.history.append((op, T, m))
         world.log("call", hist.site, op, T, m)
         if d5_class and T == 0 and op != "sleep":
